@@ -363,6 +363,27 @@ func (s GarbageSpec) Build(w *World) interface{} {
 		return []func(){func() {}}
 	case x < 22:
 		return ZNamedFunc(func() V0 { return V0{} })
+	case x < 24:
+		// self-referential values: printing them with %v never ends
+		switch g.r.Intn(3) {
+		case 0:
+			s := []interface{}{1, nil}
+			s[1] = s
+			return s
+		case 1:
+			m := map[string]interface{}{}
+			m["self"] = m
+			return m
+		default:
+			type node struct {
+				Name string
+				Kids []interface{}
+			}
+			n := &node{Name: "n"}
+			n.Kids = append(n.Kids, n.Kids, n)
+			n.Kids[0] = n.Kids
+			return n
+		}
 	}
 	ft := g.funcType(true)
 	return reflect.MakeFunc(ft, func(args []reflect.Value) []reflect.Value {
